@@ -97,6 +97,24 @@ def builtin_families():
          ("Slice", T(X, Y, C(1))), ("Slice", T(Y, X)), ("Slice", T(NONE,))])
     add("NaN", ("NaN", NONE), [("NaN", ("type", "float")), ("NaN", ("type", "np.float64"))])
     add("AlgebraicLeaf", ("AlgebraicLeaf",), [("Leaf",)])
+    # constants that differ but collide under hash(): hash(-1) == hash(-2), hash(0) == hash(2**61-1)
+    # -- the hash short-cut of == does not separate them, only the field comparison does
+    M1, M2, BIG = C(-1), C(-2), C(2**61 - 1)
+    add("twin:Sum", ("Sum", T(X, M1)), [("Sum", T(X, M2)), ("Sum", T(M2, X))])
+    add("twin:Product", ("Product", T(C(0), X)), [("Product", T(BIG, X))])
+    add("twin:Power", ("Power", X, M1), [("Power", X, M2), ("Power", M2, X)])
+    add("twin:Call", ("Call", V("f"), T(M1)), [("Call", V("f"), T(M2))])
+    add("twin:CallWithKwargs", ("CallWithKwargs", V("f"), T(), ("map", ("k", M1))),
+        [("CallWithKwargs", V("f"), T(), ("map", ("k", M2)))])
+    add("twin:Subscript", ("Subscript", V("a"), M1), [("Subscript", V("a"), M2),
+                                                      ("Subscript", V("a"), T(M2))])
+    add("twin:If", ("If", X, C(0), M1), [("If", X, BIG, M1), ("If", X, C(0), M2)])
+    add("twin:Comparison", ("Comparison", X, S("<"), M1), [("Comparison", X, S("<"), M2)])
+    add("twin:CommonSubexpression", CSE(("Sum", T(X, M1))), [CSE(("Sum", T(X, M2)))])
+    add("twin:Slice", ("Slice", T(C(0), M1)), [("Slice", T(C(0), M2)), ("Slice", T(BIG, M1))])
+    add("twin:nested", ("Sum", T(("Product", T(X, M1)), ("Power", X, C(0)))),
+        [("Sum", T(("Product", T(X, M2)), ("Power", X, C(0)))),
+         ("Sum", T(("Product", T(X, M1)), ("Power", X, BIG)))])
     add("nested", ("Sum", T(("Product", T(X, C(2))), ("Power", X, C(2)))),
         [("Sum", T(("Product", T(X, C(2.0))), ("Power", X, C(2)))),
          ("Sum", T(("Product", T(X, C(2))), ("Power", X, C(True)))),
@@ -128,6 +146,17 @@ def user_families():
                     oinfo["base"] == info["base"]:
                 variants.append((class_tag(oinfo["cls"]), *[vals[f] for f in oinfo["fields"]]))
         fams["U:" + name] = (base, variants)
+        # the added fields with values that differ but collide under hash()
+        extra = [f for f in info["fields"] if f in ("u", "w")]
+        if extra:
+            tv = dict(vals, u=C(-1), w=C(0))
+            ta = dict(alt, u=C(-2), w=C(2**61 - 1))
+            tvariants = []
+            for f in extra:
+                fl = [tv[g] for g in info["fields"]]
+                fl[info["fields"].index(f)] = ta[f]
+                tvariants.append((tag, *fl))
+            fams["UT:" + name] = ((tag, *[tv[f] for f in info["fields"]]), tvariants)
     return fams
 
 
@@ -221,6 +250,66 @@ def immutability_failure(obj, spec):
     if to_spec(obj) != before or hash(obj) != hb:
         return "mutated", "fields or hash changed after rejected mutation attempts"
     return None
+
+
+# {{{ object lifetimes
+
+def sub_objects(o, out):
+    """the expression objects of a tree, root included"""
+    import pymbolic.primitives as p
+    if isinstance(o, p.Expression):
+        out.append(o)
+        for v in node_fields(o):
+            sub_objects(v, out)
+    elif isinstance(o, tuple):
+        for v in o:
+            sub_objects(v, out)
+    return out
+
+
+def lifetime_failure(base, variants, r, rounds):
+    """History with object lifetimes: compare long-lived objects a_k with equal temporaries b_k
+    (==, hash, dict probe), drop every b_k, then build other trees; whenever one of their nodes
+    comes to live at a dropped b's address, a_k == node must still be what the fields say.
+    -> (number of address re-uses observed, failure or None)"""
+    npairs = 24
+    pairs = [(build(base), build(base)) for _ in range(npairs)]
+    keep_a, owner = [], {}
+    sa = to_spec(pairs[0][0])
+    for a, b in pairs:
+        f = pair_failure(a, b, sa, sa) or pair_failure(b, a, sa, sa)
+        if f:
+            return 0, f
+        for n in sub_objects(b, []):
+            if n is not b:
+                owner.setdefault(id(n), None)      # a dropped child: address of interest, no peer
+        owner[id(b)] = a
+        keep_a.append(a)
+    del a, b, n
+    pairs.clear()                                  # every b dies here, all a's live on
+    hits = 0
+    keep = []
+    others = [*variants, base] if variants else [base, ("Variable", ("str", "zz"))]
+    for i in range(rounds):
+        for v in others:
+            c = build(v)
+            keep.append(c)
+            for node in sub_objects(c, []):
+                a = owner.get(id(node))
+                if a is None:
+                    continue
+                hits += 1
+                r.evals += 1
+                sn = to_spec(node)
+                f = pair_failure(a, node, sa, sn) or pair_failure(node, a, sn, sa)
+                if f:
+                    return hits, (f[0] + ":after-peer-dropped",
+                                  f"{show(sa)} was compared with an equal temporary, the temporary "
+                                  f"was dropped and a structurally different node of a later tree "
+                                  f"now lives at its address: {f[1]}")
+    return hits, None
+
+# }}}
 
 
 # {{{ Engine B
@@ -345,9 +434,10 @@ class C01(Check):
             "variant per field differing in exactly that field, typed-constant variants (1 / 1.0 / "
             "True), normalisation variants (operator by name, dict vs immutabledict keyword "
             "arguments in either order, scope None), same-field instances of neighbouring classes; "
-            "for each of the 76 generated user classes (decorated / undecorated / legacy / mixed "
-            "hierarchies) an instance, one variant per field and the same-field instances of the "
-            "base class and of sibling classes; ALL ordered pairs of the pool against the "
+            "for each of the 82 generated user classes (decorated / undecorated / legacy / mixed "
+            "hierarchies, init=False / hash=False) an instance, one variant per field and the "
+            "same-field instances of the base class and of sibling classes; for built-in and user "
+            "classes variants whose differing constants collide under hash() (-1/-2, 0/2**61-1); ALL ordered pairs of the pool against the "
             "spec-level reference (which is an equivalence relation, so transitivity follows from "
             "pairwise agreement), and set/del of every field of every pool object. Engine B: per "
             "family (base, clone, first variant(s)) all histories over {hash, ==, copy, deepcopy, "
@@ -391,8 +481,11 @@ class C01(Check):
             import vf.usercls_gen as u
             for nm in u.EXPECTED:
                 yield ("classdef", nm)
+        def life():
+            for nm in names:
+                yield ("life", nm)
         return [("class-definitions", classdefs), ("pairs", pool_items),
-                ("immutability", immut), ("histories", hist)]
+                ("immutability", immut), ("lifetimes", life), ("histories", hist)]
 
     def pool(self):
         fams = all_families()
@@ -454,7 +547,16 @@ class C01(Check):
                            witness=item)
                     break
             return r
+        if kind == "life":
+            hits, f = lifetime_failure(base, variants, r, 40 if tier == "quick" else 200)
+            r.count("address_reuse_hits", hits)
+            r.keys.append(item)
+            if f:
+                r.fail(f[0], f"{f[0]}|{item[1]}", f"family {item[1]}: {f[1]}", witness=item)
+            return r
         # histories
+        if tier == "quick" and item[1].startswith("UT:"):
+            return r            # quick: the all-pairs matrix is their comparison history
         if tier == "quick" and sys.flags.optimize:
             return r            # quick: histories in the default mode only
         deep = tier == "thorough" and not item[1].startswith("U:")
